@@ -74,6 +74,12 @@ pub trait Suite {
     /// Element encodings that the FROST decoding rules must refuse: neutral,
     /// low-order / off-subgroup, non-canonical, off-curve.
     fn bad_points() -> Vec<Vec<u8>>;
+    /// Other encodings of the same element that the underlying curve code
+    /// understands but the FROST wire format does not use (SEC1 suites:
+    /// uncompressed / hybrid / with a wrong y). FROST decoders must refuse them.
+    fn alt_point_encodings(_enc: &[u8]) -> Vec<Vec<u8>> {
+        Vec::new()
+    }
 }
 
 /// hash_to_field-style expansion used by the P-256 and secp256k1 suites
@@ -513,6 +519,19 @@ impl Suite for P256 {
         let rhs = r + pk * c;
         lhs.encode_compressed() == rhs.encode_compressed()
     }
+    fn alt_point_encodings(enc: &[u8]) -> Vec<Vec<u8>> {
+        match crrl::p256::Point::decode(enc) {
+            Some(p) => {
+                let u = p.encode_uncompressed().to_vec();
+                let mut hyb = u.clone();
+                hyb[0] = 0x06 | (u[64] & 1);
+                let mut wrong_y = u.clone();
+                wrong_y[64] ^= 1;
+                vec![u, hyb, wrong_y, vec![0u8]]
+            }
+            None => Vec::new(),
+        }
+    }
     fn bad_points() -> Vec<Vec<u8>> {
         let mut v = Vec::new();
         v.push(vec![0u8; 33]); // first byte 00, 33 bytes
@@ -571,6 +590,19 @@ impl Suite for Secp256k1 {
         let lhs = Point::mulgen(&z);
         let rhs = r + pk * c;
         lhs.encode_compressed() == rhs.encode_compressed()
+    }
+    fn alt_point_encodings(enc: &[u8]) -> Vec<Vec<u8>> {
+        match crrl::secp256k1::Point::decode(enc) {
+            Some(p) => {
+                let u = p.encode_uncompressed().to_vec();
+                let mut hyb = u.clone();
+                hyb[0] = 0x06 | (u[64] & 1);
+                let mut wrong_y = u.clone();
+                wrong_y[64] ^= 1;
+                vec![u, hyb, wrong_y, vec![0u8]]
+            }
+            None => Vec::new(),
+        }
     }
     fn bad_points() -> Vec<Vec<u8>> {
         let mut v = Vec::new();
